@@ -555,7 +555,17 @@ def d2_definitions(ctx, idx, env):
         for name, prim in sorted(INVERSE_RECIPROCAL.items()):
             fi = idx.func('%s.%s' % (MFQ, name))
             expr, st = single_return(fi)
-            res = classify_def(idx, mod, ['np.%s(1 / _X)' % prim], expr, param_binds(fi, ['_X']))
+            bx = param_binds(fi, ['_X'])
+            res = classify_def(idx, mod, ['np.%s(1 / _X)' % prim, 'np.%s(np.true_divide(1, _X))' % prim, 'np.%s(np.divide(1.0, _X))' % prim,
+                                          'np.%s(_X ** -1.0)' % prim, 'np.%s(1 / float(_X))' % prim], expr, bx)
+            if res != nf.MATCH:
+                integer_forms = ['np.%s(np.reciprocal(_X))' % prim, 'np.%s(1 // _X)' % prim, 'np.%s(np.floor_divide(1, _X))' % prim,
+                                 'np.%s(np.power(_X, -1))' % prim]
+                if classify_def(idx, mod, integer_forms, expr, bx) == nf.MATCH:
+                    res = ('DIFF', 'the reciprocal is computed with an operation that keeps the integer type of its operand (`%s`): for an '
+                                   'integer argument it is the INTEGER reciprocal (np.reciprocal(2) == 0), so %s(2) = %s(0) instead of '
+                                   '%s(0.5); integers reach these functions from integer-entry products, trace(A) or direct calls, and '
+                                   '`1. / x` forces float division' % (short(expr), name, prim, prim))
             verdict('mathfuncs.%s' % name, res, lib.loc(fi, st), '%s(1/x)' % prim, short(expr),
                     '%s(x) is no longer %s(1/x)' % (name, prim))
         # arccot: two branches
@@ -602,6 +612,13 @@ def d2_definitions(ctx, idx, env):
         if len(rets) != 1:
             raise AnalysisError('arctan2: expected one return path')
         res = classify_def(idx, mod, ['np.arctan2(_Y, _X)'], rets[0].leaf.expr, b)
+        if res != nf.MATCH and classify_def(idx, mod, ['np.angle(_X + 1j * _Y)', 'np.angle(_X + _Y * 1j)', 'np.angle(complex(_X, _Y))',
+                                                       'np.angle(_Y * 1j + _X)'], rets[0].leaf.expr, b) == nf.MATCH:
+            res = ('DIFF', 'the angle is computed as `%s`: equal to numpy.arctan2(y, x) for real arguments, but numpy.arctan2 refuses '
+                           'complex arguments with a TypeError (reported to the student as a domain error) while this form accepts complex '
+                           'x, y and returns a meaningless number; the scalar validator admits any Number, so that TypeError was the only '
+                           'refusal of complex arguments (and x + iy can vanish for complex x, y that pass the (0, 0) guard)'
+                   % short(rets[0].leaf.expr))
         verdict('mathfuncs.arctan2 [value]', res, lib.loc(fi, rets[0].leaf.stmt), 'numpy.arctan2(y, x)', short(rets[0].leaf.expr),
                 'arctan2(x, y) no longer is the angle of the point (x, y)')
         origin = [p for p in raises if len(p.guards) == 1 and
@@ -1751,6 +1768,9 @@ MUTANTS = [
     Mutant('arctan2-origin-or', MF, "    if x == 0 and y == 0:", "    if x == 0 or y == 0:", 'D2'),
     Mutant('cross-sign', MF, "        a[2]*b[0] - b[2]*a[0],", "        a[2]*b[0] + b[2]*a[0],", 'D2'),
     Mutant('cross-index', MF, "        a[0]*b[1] - b[0]*a[1]\n", "        a[0]*b[1] - b[0]*a[2]\n", 'D2'),
+    Mutant('seeded-C15g-integer-reciprocal', MF, "    return np.arccos(1. / val)", "    return np.arccos(np.reciprocal(val))", 'D2'),
+    Mutant('arccoth-floor-division', MF, "    return np.arctanh(1. / val)", "    return np.arctanh(1 // val)", 'D2'),
+    Mutant('seeded-C15h-arctan2-through-angle', MF, "    return np.arctan2(y, x)", "    return np.angle(x + 1j * y)", 'D2'),
     Mutant('arcsec-through-arcsin', MF, "    return np.arccos(1. / val)", "    return np.arcsin(1. / val)", 'D2'),
     Mutant('arccoth-without-reciprocal', MF, "    return np.arctanh(1. / val)", "    return np.arctanh(val)", 'D2'),
     Mutant('csch-through-cosh', MF, "    return 1 / np.sinh(arg)", "    return 1 / np.cosh(arg)", 'D2'),
@@ -1856,5 +1876,7 @@ BENIGN = [
            "        # can't use @wraps, func might be a numpy ufunc\n        def decorator(func):\n            func_name = display_name if display_name else func.__name__\n\n            @wraps(func)\n            def _func(*args):\n                # Set up the schemas and shapes for validation.\n                # Also check the number of arguments provided is correct.\n                # Use the same response as in validate_function_call in expressions.py\n                msg = ''\n                if min_length is not None:",
            "        variable_length = min_length is not None\n\n        def decorator(func):\n            func_name = display_name if display_name else func.__name__\n\n            @wraps(func)\n            def _func(*args):\n                msg = ''\n                if variable_length:"),
     Benign('factorial-gamma-inline', MF, "    value = special.gamma(z+1)\n", "    value = special.gamma(1 + z)\n"),
+    Benign('reciprocal-true-divide', MF, "    return np.arccos(1. / val)", "    return np.arccos(np.true_divide(1, val))"),
+    Benign('reciprocal-float-power', MF, "    return np.arcsinh(1. / val)", "    return np.arcsinh(val ** -1.0)"),
     Benign('kronecker-else', MF, "    if x == y:\n        return 1\n    return 0", "    if x != y:\n        return 0\n    else:\n        return 1"),
 ]
